@@ -137,6 +137,28 @@ PROFILES["C11"]["rule"] = DEFAULT_RULE + _txt
 # C12: its own profile plus the membership-heavy one (servers removed, re-added, demoted while cut off)
 PROFILES["C12"]["scenarios"] = [s1(quick_runs=1800, quick_budget_s=40), s1("C07", quick_runs=700, quick_budget_s=20, thorough_budget_s=600)]
 
+# S2 replication sweep (sim/dst/s2_repl.go): one real server follows a fabricated by-the-book cluster; the plan is
+# re-run with a crash before / after every store operation that changes the durable image and with an error at
+# every operation. It serves C10's quantifier ("for every crash point before/after each individual log-store,
+# stable-store and snapshot-store operation") directly and rides along with the properties whose oracles it exercises.
+_S2R_TXT = (" In addition n evaluations of the replication sweep (scenario C10S2): one generated leader plan (10-26 steps quick: append, AppendEntries from nextIndex, heartbeat, "
+            "commit advance, leader change with truncation of uncommitted entries, leader-side compaction forcing InstallSnapshot, stale re-sends, vote requests) against one real "
+            "server that snapshots and compacts by itself, run fault-free and then once per fault point (crash before and after every mutating store operation, error at every "
+            "operation, thinned to 40 when there are more); such an evaluation is non-trivial when the fault-free run performed store operations and the server was caught up at "
+            "the end; distinct = different hash of the plan.")
+def _s2r(runs, budget):
+    return {"scenario": "C10S2", "profile": "C10S2", "quick_runs": runs, "quick_budget_s": budget, "thorough_runs": 400000, "thorough_budget_s": 600}
+for _p, _r, _b in (("C10", 900, 30), ("C04", 400, 15), ("C11", 400, 15), ("C12", 300, 12), ("C03", 300, 12), ("C02", 300, 12)):
+    PROFILES[_p]["scenarios"] = PROFILES[_p]["scenarios"] + [_s2r(_r, _b)]
+    PROFILES[_p]["rule"] = PROFILES[_p].get("rule", DEFAULT_RULE) + _S2R_TXT
+PROFILES["C10"]["level"] = "fault_enumeration"
+PROFILES["C10"]["technique"] = "deterministic simulation; crash and error points enumerated over every store operation of each sampled replication plan, plus seeded whole-cluster exploration"
+LEVEL_TEXT["C10"] = ("fault enumeration within sampled histories (replication sweep: crash before/after and error at every log-store, stable-store and snapshot-store operation of a "
+                     "generated leader plan, restart from the durable image, by-the-book leader continues) plus seeded whole-cluster exploration with crashes placed at store operations; "
+                     "at every restart the state reported by the new instance is compared with the durable image at the crash instant (term, last index, latest configuration, newest "
+                     "usable snapshot), the FSM stream with the committed history, and NewRaft must return")
+PROFILES["C10"]["level_text"] = LEVEL_TEXT["C10"]
+
 # C17: the chaotic half (profile C17) and the calm half with brief link losses inside calls (profile C17b)
 PROFILES["C17"]["scenarios"] = [s1(quick_runs=1500, quick_budget_s=30), s1("C17b", quick_runs=1200, quick_budget_s=25, thorough_budget_s=600)]
 
